@@ -2590,3 +2590,69 @@ func (c *Ctx) ruleSignalOrder(rule string) {
 		c.R.Unresolved(rule, "goroutine that forwards the caller's signals to the step")
 	}
 }
+
+// R-DONEGATE (C06 "every interleaving of ... Execute calls ... and Close"; "after Close no goroutine started by the
+// client remains blocked"): Close sets the done flag, tells the peer that no more work is coming and waits for the
+// client's goroutines. A run registered after that starts a read loop that nothing ends, and its WaitGroup.Add can hit
+// the Wait in progress (panic). Every insertion into the pending table must happen where the done flag, read in the
+// same critical section, is known to be false.
+func (c *Ctx) ruleDoneGate(rule string) {
+	ro := c.roles()
+	if ro.ok && ro.doneFlag == "" {
+		// the client's other boolean: the one that is not the read loop's running flag
+		if st, ok := ro.clientT.Underlying().(*types.Struct); ok {
+			var cands []string
+			for i := 0; i < st.NumFields(); i++ {
+				if b, ok := st.Field(i).Type().Underlying().(*types.Basic); ok && b.Kind() == types.Bool && st.Field(i).Name() != ro.runFlag {
+					cands = append(cands, st.Field(i).Name())
+				}
+			}
+			if len(cands) == 1 {
+				ro.doneFlag = cands[0]
+			}
+		}
+	}
+	if !ro.ok || ro.doneFlag == "" {
+		c.R.Unresolved(rule, "done flag of the ATP client")
+		return
+	}
+	n := 0
+	for _, fn := range c.M.SortedFuncs(c.scopePkg("atp")) {
+		if !c.isMethodOf(fn, ro.clientT) {
+			continue
+		}
+		for _, b := range fn.Blocks {
+			for _, in := range b.Instrs {
+				mu, ok := in.(*ssa.MapUpdate)
+				if !ok || !c.isFieldLoad(mu.Map, ro.clientT, ro.pending) {
+					continue
+				}
+				n++
+				k := key(rule, c.M.Key(fn), "a run is registered only on a client that is not closed")
+				est := func(cond core.Cond) bool {
+					ld, ok := cond.V.(*ssa.UnOp)
+					if !ok || cond.True {
+						return false
+					}
+					fa, ok := ld.X.(*ssa.FieldAddr)
+					return ok && structOf(fa.X.Type()) == ro.clientT && fieldName(fa.X.Type(), fa.Field) == ro.doneFlag
+				}
+				locked := false
+				for _, l := range c.lockedAt(fn, mu) {
+					if strings.HasSuffix(l, "."+ro.mutexOf[ro.clientT]) {
+						locked = true
+					}
+				}
+				if core.MustHold(fn, est)[b] && locked {
+					c.R.Ok(rule, k, c.M.InstrPos(mu), "insertion into the pending table", "on every path the done flag was found false, under the state mutex that Close holds when it sets the flag")
+				} else {
+					c.R.Bad(rule, k, c.M.InstrPos(mu), "a run can be registered after Close has set the done flag",
+						"Close has already told the peer that no more work is coming and waits for the client's goroutines: the read loop started for this run is never ended (Close, or a goroutine, stays blocked), and its WaitGroup.Add can hit the Wait in progress ('WaitGroup is reused before previous Wait has returned')")
+				}
+			}
+		}
+	}
+	if n == 0 {
+		c.R.Unresolved(rule, "insertion into the client's pending table")
+	}
+}
